@@ -963,9 +963,9 @@ class SyncObj(object):
             # Install snapshot
             elif serialized is not None:
                 if self.__serializer.setTransmissionData(serialized):
-                    self.__loadDumpFile(clearJournal=True)
-                    self.__sendNextNodeIdx(node, success=True)
-                    verifiedIdx = self.__getCurrentLogIndex()
+                    if self.__loadDumpFile(clearJournal=True):
+                        self.__sendNextNodeIdx(node, success=True)
+                        verifiedIdx = self.__getCurrentLogIndex()
 
             # Only the prefix verified against the leader's log may be committed
             if verifiedIdx is not None and leaderCommitIndex > self.__raftCommitIndex:
@@ -1426,8 +1426,10 @@ class SyncObj(object):
             if self.__conf.dynamicMembershipChange:
                 self.__updateClusterConfiguration([node for node in data[3] if node != self.__selfNode])
             self.__onSetCodeVersion(self.__enabledCodeVersion)
+            return True
         except:
             logger.exception('failed to load full dump')
+            return False
 
     def __updateClusterConfiguration(self, newNodes):
         # newNodes: list of Node or node ID
